@@ -480,7 +480,8 @@ def _r29c(chk, repo, g, table) -> None:
                     detail=f"dialect={label} ref={ref} in={d.display(o)} (class without match_grammar)",
                     construct=f"{mod}::{d.display(o)}", loc=f"{mod}:{on.get('line', 0)}",
                 )
-    chk.floor("R29c.refs_to_segment_classes", 5000)
+    if all(g.get(lab) is not None and g[lab].root is not None for lab in table):
+        chk.floor("R29c.refs_to_segment_classes", 5000)
 
 
 # -- machine-readable list of today's findings ------------------------------------------
@@ -569,6 +570,18 @@ TSQL = "src/sqlfluff/dialects/dialect_tsql.py"
 BQ = "src/sqlfluff/dialects/dialect_bigquery.py"
 
 VARIANTS = [
+    Variant(
+        "tsql-ref-to-raw-class-without-grammar", "src/sqlfluff/dialects/dialect_tsql.py",
+        "            \"REMOVE\",\n            \"FILE\",\n            Ref(\"NakedOrQuotedIdentifierGrammar\"),\n",
+        "            \"REMOVE\",\n            \"FILE\",\n            Ref(\"LiteralSegment\"),\n",
+        "R29c", "ref=LiteralSegment", "the defect repaired by 428a36a: AttributeError for `ALTER DATABASE d REMOVE FILE f1;`",
+    ),
+    Variant(
+        "quiet-tsql-ref-to-code-segment-kept", "src/sqlfluff/dialects/dialect_tsql.py",
+        "            \"REMOVE\",\n            \"FILE\",\n            Ref(\"NakedOrQuotedIdentifierGrammar\"),\n",
+        "            \"REMOVE\",\n            \"FILE\",\n            OneOf(Ref(\"NakedOrQuotedIdentifierGrammar\"), Ref(\"QuotedLiteralSegment\")),\n",
+        "QUIET", None, "a grammar change that keeps every reference resolvable and matchable",
+    ),
     Variant(
         "ansi-unreserved-keyword-deleted", ANSI_KW,
         "\nWAREHOUSE\n", "\n",
